@@ -471,5 +471,31 @@ def step (a : ArraySized) (op : Op Elem) (m : Mem) : Out Elem × ArraySized × M
   | .reduce fn r0 => let r := a.reduce fn r0 m; ({ val := some r.1, cb := r.2.1 }, a, r.2.2)
   | .sort sortFn => ({}, a.sort sortFn, m)
 
+/-- which refusal the environment inflicted on this call (read off the status) -/
+def refusal (a : ArraySized) (op : Op Elem) (m : Mem) : Option Stat :=
+  match (a.step op m).1.st with
+  | some .errAlloc => some .errAlloc
+  | some .errMaxCapacity => some .errMaxCapacity
+  | _ => none
+
+def run (a : ArraySized) : List (Op Elem) → Mem → List (Out Elem) × ArraySized × Mem
+  | [], m => ([], a, m)
+  | op :: ops, m =>
+    let r := a.step op m
+    let t := run r.2.1 ops r.2.2
+    (r.1 :: t.1, t.2.1, t.2.2)
+
+def refusals (a : ArraySized) : List (Op Elem) → Mem → List (Option Stat)
+  | [], _ => []
+  | op :: ops, m => a.refusal op m :: refusals (a.step op m).2.1 ops (a.step op m).2.2
+
+/-- documented preconditions of one call: element arguments are buffers of `data_length` bytes,
+`map`'s function rewrites an element in place (same size), `sort`'s `qsort` rearranges -/
+def OpWF (dl : Nat) : Op Elem → Prop
+  | .add x | .addAt x _ | .replaceAt x _ | .remove x | .indexOf x | .contains x => x.length = dl
+  | .map f => ∀ c : List Nat, c.length = dl → (f c).length = dl
+  | .sort sortFn => ∀ l, (sortFn l).Perm l
+  | _ => True
+
 end ArraySized
 end CC
